@@ -264,6 +264,15 @@ def genMapOK (D : CfgData) (gm : List (Nat × List Def)) : Bool :=
 def rdRunModel (D : CfgData) (fuel : Nat) : WL Def :=
   run D.graph.edges (rdFlow D) fuel (WL.init [D.entry])
 
+/-- fuel that always suffices (`Proofs/C06Worklist.lean`: `run_terminates`) -/
+def rdFuel (D : CfgData) : Nat := fuelBound D.graph.edges [D.entry] (rdFlow D)
+
 def solEqOn {α : Type} [DecidableEq α] (ns : List Nat) (x y : St α) : Bool := ns.all (fun n => setEqB (x n) (y n))
+
+theorem solEqOn_spec {α : Type} [DecidableEq α] {ns : List Nat} {x y : St α} (h : solEqOn ns x y = true) :
+    ∀ n, n ∈ ns → SetEq (x n) (y n) := by
+  intro n hn
+  simp only [solEqOn, List.all_eq_true] at h
+  exact (setEqB_spec _ _).mp (h n hn)
 
 end Malt.Analysis
